@@ -1,3 +1,4 @@
+import copy
 from typing import Any, Dict, List, Optional, Set, Tuple, Union
 
 from graphql import (
@@ -47,6 +48,19 @@ class GraphQLField:
         self._subfields: List[GraphQLField] = []
         self._alias: Optional[str] = None
         self._inline_fragments: Dict[str, Tuple[GraphQLField, ...]] = {}
+
+    def __get__(self, instance: Any, owner: Any = None) -> "GraphQLField":
+        """Class-level field objects (`PersonFields.id`) are templates.
+
+        Every access through the class yields a fresh copy, so alias() / on()
+        never leak into operations built later in the same process.
+        """
+        clone = copy.copy(self)
+        clone._variables = dict(self._variables)
+        clone.formatted_variables = {}
+        clone._subfields = list(self._subfields)
+        clone._inline_fragments = dict(self._inline_fragments)
+        return clone
 
     def alias(self, alias: str) -> "GraphQLField":
         """Sets an alias for the GraphQL field and returns the instance."""
